@@ -38,7 +38,15 @@ def generate(seed, tier, index, kf):
         sids = [s_["id"] for s_ in prog["sessions"]]
         for _ in range(r.randint(1, 2)):
             at = r.randint(1, len(prog["ops"]))
-            prog["ops"].insert(at, {"s": r.choice(sids), "op": "alias_probe", "kw": r.choice(mailstore.ALIAS_KW), "pos": r.randint(1, 6)})
+            sid_ = r.choice(sids)
+            kw_, pos_ = r.choice(mailstore.ALIAS_KW), r.randint(1, 6)
+            # (not in the middle of that session's IDLE)
+            idle_ = False
+            for o_ in prog["ops"][:at]:
+                if o_.get("s") == sid_ and o_.get("op") in ("idle", "done"):
+                    idle_ = o_["op"] == "idle"
+            if not idle_:
+                prog["ops"].insert(at, {"s": sid_, "op": "alias_probe", "kw": kw_, "pos": pos_})
     prog["probe_p"] = r.choice((1.0, 1.0, 0.35, 0.1))
     return prog
 
